@@ -84,7 +84,7 @@ pub fn from_program(p: &Program) -> Option<Vec<u8>> {
 
 pub struct Shared<G: Cv> {
     pub env: Env<G>,
-    pub donor: Vec<u8>,
+    pub donor: R1CSProof<G>,
     pub seed: u64,
 }
 
@@ -117,7 +117,7 @@ pub fn exec<G: Cv>(sh: &Shared<G>, h: &[u8]) -> Exec {
         if two {
             let mut rng = crate::alphabet::chacha(sh.seed, "c16");
             match prover.prove(&mut rng, &sh.env.bp) {
-                Ok(p) => proof_bytes = Some(p.to_bytes().unwrap()),
+                Ok(p) => proof_bytes = Some(p),
                 Err(e) => {
                     let missing = pctx.borrow().missing;
                     let txt = program::err_name(&e);
@@ -138,8 +138,7 @@ pub fn exec<G: Cv>(sh: &Shared<G>, h: &[u8]) -> Exec {
         let (verifier, vctx) = build_verifier::<G, Transcript>(&prog, &sh.env.pc, Transcript::new(program::LABEL), sh.seed, Dev::None, &comms);
         let mut verdict = None;
         if two {
-            let bytes = proof_bytes.clone().unwrap_or_else(|| sh.donor.clone());
-            let proof = R1CSProof::<G>::from_bytes(&bytes).expect("proof decodes");
+            let proof = proof_bytes.clone().unwrap_or_else(|| sh.donor.clone());
             verdict = Some(verifier.verify(&proof, &sh.env.pc, &sh.env.bp).is_ok());
         } else {
             drop(verifier);
@@ -537,11 +536,10 @@ pub fn closing_probe<G: Cv>(sh: &Shared<G>, h: &[u8]) -> Option<Vec<String>> {
     let run = |dev: Dev<G::ScalarField>| -> Result<bool, String> {
         guarded(|| {
             let pr = program::prove::<G>(&prog, &sh.env.pc, &sh.env.bp, sh.seed, "c16-probe", dev.clone());
-            let bytes = match pr.proof {
-                Ok(b) => b,
-                Err(e) => return Err(format!("prove Err({})", e)),
+            let proof = match pr.obj.clone() {
+                Some(p) => p,
+                None => return Err(format!("prove Err({:?})", pr.proof.as_ref().err())),
             };
-            let proof = R1CSProof::<G>::from_bytes(&bytes).map_err(|e| format!("{:?}", e))?;
             Ok(program::verify::<G>(&prog, &sh.env.pc, &sh.env.bp, sh.seed, dev, &pr.commitments, &proof, program::LABEL).result.is_ok())
         })
         .unwrap_or_else(|m| Err(format!("panicked: {}", m)))
@@ -551,7 +549,7 @@ pub fn closing_probe<G: Cv>(sh: &Shared<G>, h: &[u8]) -> Option<Vec<String>> {
     let control = to_program(h);
     let control_ok = guarded(|| {
         let pr = program::prove::<G>(&control, &sh.env.pc, &sh.env.bp, sh.seed, "c16-probe", Dev::None);
-        match pr.proof.ok().and_then(|b| R1CSProof::<G>::from_bytes(&b).ok()) {
+        match pr.obj.clone() {
             Some(proof) => program::verify::<G>(&control, &sh.env.pc, &sh.env.bp, sh.seed, Dev::None, &pr.commitments, &proof, program::LABEL).result.is_ok(),
             None => false,
         }
@@ -585,7 +583,7 @@ pub fn closing_probe<G: Cv>(sh: &Shared<G>, h: &[u8]) -> Option<Vec<String>> {
             guarded(|| {
                 let dev = Dev::KConst { k: *k, delta: G::ScalarField::one(), both: true };
                 let pr = program::prove::<G>(&ctl, &sh.env.pc, &sh.env.bp, sh.seed, "c16-probe", dev.clone());
-                match pr.proof.ok().and_then(|b| R1CSProof::<G>::from_bytes(&b).ok()) {
+                match pr.obj.clone() {
                     Some(proof) => program::verify::<G>(&ctl, &sh.env.pc, &sh.env.bp, sh.seed, dev, &pr.commitments, &proof, program::LABEL).result.is_err(),
                     None => true,
                 }
@@ -610,9 +608,9 @@ fn hist_name(h: &[u8]) -> String {
     to_program(h).name()
 }
 
-fn donor<G: Cv>(env: &Env<G>, seed: u64) -> Vec<u8> {
+fn donor<G: Cv>(env: &Env<G>, seed: u64) -> R1CSProof<G> {
     let p = Program::parse("C M Kg").unwrap();
-    program::prove::<G>(&p, &env.pc, &env.bp, seed, "donor", Dev::None).proof.expect("donor proof")
+    program::prove::<G>(&p, &env.pc, &env.bp, seed, "donor", Dev::None).obj.expect("donor proof")
 }
 
 struct RunStats {
